@@ -96,7 +96,7 @@ type docCase struct {
 	prop string
 }
 
-var docStrings = []string{"abc", "", "with \"quote\" and \\ and \n", "é☃\U0001F600", "</x>&", " ", "\t tab and \u0000 nul \u001f us \u007f del", "\u2028line\u2029sep", "null", "true", "17", "{\"a\":1}", strings.Repeat("long-é-", 700)}
+var docStrings = []string{"abc", "", "with \"quote\" and \\ and \n", "é☃\U0001F600", "</x>&", " ", "\t tab and \u0000 nul \u001f us \u007f del", "\u2028line\u2029sep", "null", "true", "17", "{\"a\":1}", strings.Repeat("long-é-", 700), "C:\\users\\u0026", "write \\u003c to get <", "\\n is not a newline", "\\"}
 var docTimes = []string{"2024-01-02T03:04:05Z", "2024-02-29T23:59:59.123456789+02:00", "1969-12-31T23:59:59.999-05:30", "0001-01-01T00:00:00Z", "9999-12-31T23:59:59.999999999Z", "2024-01-02T03:04:05+14:00", "2024-01-02T03:04:05.5Z", "2024-12-31T23:59:59-00:00", "2016-12-31T23:59:59.123456789012+05:30"}
 var docInt64 = []any{json.Number("0"), json.Number("42"), json.Number("-9223372036854775808"), json.Number("9223372036854775807"), json.Number("-0"), json.Number("-1"), json.Number("9007199254740993")}
 var docInt32 = []any{json.Number("0"), json.Number("-7"), json.Number("2147483647"), json.Number("-2147483648")}
